@@ -79,13 +79,13 @@ Definition field_obs (c : text * list nat * nat * nat * nat * option (N * sel_ra
      end).
 
 From Vicut Require Import Model.Undo.
-(** ops: (kind, pre, after, session) with kind 0 = command, 1 = undo, 2 = redo; session 0 = stands alone,
+(** ops: (kind, pre, after, session) with kind 0 = command, 1 = undo, 2 = redo, 3 = end of a key string; session 0 = stands alone,
     1 = opens an insert session (c, o, O), 2 = typed character *)
 Definition undo_obs (c : text * list (N * option text * text * N)) :=
   let '(t, ops) := c in
   let s := urun t (map (fun o => let '(k, pre, a, ci) := o in
                                  if k =? 0 then OCmd pre a (if ci =? 0 then KPlain else if ci =? 1 then KOpens else KContinues)
-                                 else if k =? 1 then OUndo else ORedo) ops) in
+                                 else if k =? 1 then OUndo else if k =? 2 then ORedo else OBoundary) ops) in
   (u_buf s, map (fun e => (e_old e, e_new e)) (u_undo s), map (fun e => (e_old e, e_new e)) (u_redo s)).
 
 From Vicut Require Import Model.Search.
